@@ -64,6 +64,8 @@ pub fn main(args: &Args) -> i32 {
             let _ = gate.take_log();
             atomicity_probe(&mut rep, &gate, round);
         }
+        gate.disarm_all();
+        session_probe(&mut rep);
     }
     for (idx, b) in behaviours.iter().enumerate() {
         if idx % nshards != shard { continue }
@@ -533,4 +535,40 @@ fn freerun(args: &Args, out: &str) -> i32 {
         rep.nontrivial("C15", format!("freerun-{round}"));
     }
     rep.write(args)
+}
+
+
+/// The presented version is (session, serial): a long-poll carrying another
+/// session's identifier with a serial that happens to equal the current one
+/// presents a version different from the served one and must not block; the
+/// same holds for other serials of other sessions.
+fn session_probe(rep: &mut Report) {
+    let mut fx = Fixture::start(|c| { c.history_size = 10; });
+    let port = fx.http_port;
+    let _ = fx.process_once(&slurm(&concrete(1)), true);
+    let _ = fx.process_once(&slurm(&concrete(2)), false);
+    let (session, serial) = { let r = fx.history.read(); (r.session(), u32::from(r.serial())) };
+    for (other, ser) in [(session.wrapping_sub(1000), serial), (session.wrapping_add(1), serial), (1u64, serial), (session.wrapping_sub(1000), 0)] {
+        rep.eval("C17");
+        rep.nontrivial("C17", format!("foreign-session/{}/{}", other == session, ser));
+        let path = format!("/json-delta/notify?session={other}&serial={ser}");
+        let t0 = Instant::now();
+        let r = http_request(port, "GET", &path, &[], None, Duration::from_secs(3));
+        let ctx = json!({"probe": "long-poll presenting another session", "presented": [other, ser], "served": [session, serial]});
+        match r {
+            Ok(resp) if resp.status == 200 => {
+                if let Ok(v) = serde_json::from_slice::<Value>(&resp.body) {
+                    if v["session"].as_u64() != Some(session) || v["serial"].as_u64() != Some(serial as u64) {
+                        rep.violation("C17", "notify-wrong-version", "notify answered with something else than the served version",
+                            ctx.clone(), json!({"body": v}));
+                    }
+                }
+            }
+            Ok(resp) => rep.violation("C17", "notify-bad-status", format!("notify answered with status {}", resp.status), ctx.clone(), json!({})),
+            Err(e) => rep.violation("C17", "blocked-on-foreign-session",
+                format!("a long-poll presenting (session {other}, serial {ser}) while (session {session}, serial {serial}) is served did not return within {:?}: {e}", t0.elapsed()),
+                ctx.clone(), json!({})),
+        }
+    }
+    rep.trace("C17");
 }
